@@ -398,7 +398,9 @@ func init() {
 			if r.Chance(2, 3) {
 				src = []byte(cor[r.Intn(len(cor))].Src)
 			} else {
-				src = gen.Hostile(r, nil)
+				pc := genParseCase(c.P.Seed, "C15gen", idx, 20)
+				c15Replace(c, pc.Src, pc.Ver, r)
+				return
 			}
 			c15Replace(c, src, r.Pick("5.6", "7.4", "7.0", "5.3"), r)
 		},
